@@ -30,7 +30,7 @@ RULE = (
 REAL = ["UniformGrid", "RectilinearGrid", "QuasiUniformGrid.resolve", "place_objects", "apply_params", "forward", "run_fdtd", "custom_fdtd_forward"]
 STUB = ["per-cell material arrays are written into the placed ArrayContainer", "tqdm disabled"]
 ASSUMPTIONS = [
-    "float64; agreement criterion 1e-12 relative to the per-array max",
+    "float64; agreement criterion 1e-12 relative to the per-array max (arrays below 1e-3 of the field maximum, and field / Poynting records below the corresponding scale, are judged on that absolute scale)",
     "even cell counts on every axis (documented requirement of QuasiUniformGrid.resolve; odd counts are a documented rejection)",
     "the explicit grid's edges are k*s - n*s/2 (one rounding away from the library's own lower + s*k)",
     "plane sources sit on exactly isotropic planes",
@@ -92,15 +92,17 @@ def execute(spec):
         rp.count_steps(stats, n, scenes[0].dt)
         arrays = [rp.set_fields(s, E0, H0) for s in scenes]
     states = [st.state0(a) for st, a in zip(steppers, arrays)]
-    f0 = None
+    f0, g_run = None, 0.0
     for t in range(T):
         states = [st.fwd(s) for st, s in zip(steppers, states)]
         rp.count_steps(stats, 3, scenes[0].dt)
         f0 = dr.fields_np(states[0])
         r0 = dr.detectors_np(states[0])
+        g = rp.field_scale(f0)
+        g_run = max(g_run, g)
         for k in (1, 2):
-            mon.dicts("fields_vs_uniform", t, f0, dr.fields_np(states[k]), TOL, replica=GRIDS[k])
-            mon.dicts("records_vs_uniform", t, r0, dr.detectors_np(states[k]), TOL, replica=GRIDS[k])
+            mon.dicts("fields_vs_uniform", t, f0, dr.fields_np(states[k]), TOL, floors=rp.FLOOR * g, replica=GRIDS[k])
+            mon.dicts("records_vs_uniform", t, r0, dr.detectors_np(states[k]), TOL, floors=rp.record_floors(spec, g_run, r0), replica=GRIDS[k])
     nontrivial = bool(np.max(np.abs(f0["E"])) > 0 or np.max(np.abs(f0["H"])) > 0)
 
     lp = spec.get("loop") or {}
